@@ -173,13 +173,17 @@ def gen_factory(rng):
             e = E(); links.append((e, sidx, c))
         if shape == "pack" and rng.random() < 0.75:
             nso = rng.choice([1, 2, 2, 3])
-            sp = N(dict(kind="splitter", pd=pd(), setup=rng.choice([0, 0, 1]), blocking=rng.random() < 0.65,
+            sp = N(dict(kind="splitter", pd=pd(), setup=rng.choice([0, 0, 1]), blocking=rng.random() < 0.55,
                         inp=rand_policy(rng, nco), out=rand_policy(rng, nso)))
+            if not nodes[sp]["blocking"] and rng.random() < 0.5:
+                # the unpack loop of a non-blocking FIRST_AVAILABLE splitter in front of full out-edges: pallets carrying several items
+                nodes[sp]["out"] = "FIRST_AVAILABLE"
+                if k > 0 and sum(nodes[c]["target"][1:]) < 2 and len(nodes[c]["target"]) > 1: nodes[c]["target"][1] = rng.choice([2, 3])
             if rng.random() < 0.3: nodes[sp]["split_quantity"] = rng.choice([1, 2, 3])     # documented as ignored in UNPACK mode
             for _ in range(nco):
                 e = E(); links.append((e, c, sp))
             slow_out = rng.random() < 0.45
-            all_cong = rng.random() < 0.35      # a non-blocking splitter whose out-edges are ALL congested: several items of one pallet are dropped at one instant
+            all_cong = rng.random() < 0.6      # a non-blocking splitter whose out-edges are ALL congested: several items of one pallet are dropped at one instant
             for jj in range(nso):
                 kk = sink(); e = E(); links.append((e, sp, kk))
                 # a non-blocking splitter with several out-edges: one of them is often congested (drops on one edge, pushes on another)
